@@ -91,3 +91,8 @@ check_C01() {
   build_proxy
   wire_part wire relay
 }
+
+check_C12() {
+  build_proxy
+  wire_part wire affinity
+}
